@@ -28,7 +28,7 @@ for _f in sorted(os.listdir(os.path.join(ROOT, "lib", "manifest.d"))):
 props = [json.loads(l)["id"] for l in open(os.path.join(ROOT, "properties.jsonl"))]
 manifest = {
     "version": 1,
-    "setup_cmd": "cd /verif && (cd minilua && cargo build --offline -q --release 2>/dev/null; true) && (cd harness && cargo build --offline --bins -q) && ./check --sany",
+    "setup_cmd": "cd /verif && ./check --setup",
     "hooks": {
         "guard": "sylt_verif",
         "enable": "not used: every observation is made through sylt's public API (tokenizer, parser, compile_with_reader_to_writer, the sylt binary); no source hooks exist",
